@@ -513,10 +513,27 @@ const MB: &[&str] = &["é", "ü", "日本", "😀", "ß"];
 
 /// apply one mutation; returns the label when the mutation applied
 fn apply_mut(lang: SupportLang, text: &mut String, m: &Mutn, opts: &SrcOpts) -> Option<&'static str> {
+  apply_mut_scoped(lang, text, m, opts, None)
+}
+
+/// like apply_mut, but only nodes strictly inside `scope` (byte span) are eligible
+pub fn apply_mut_scoped(
+  lang: SupportLang,
+  text: &mut String,
+  m: &Mutn,
+  opts: &SrcOpts,
+  scope: Option<(usize, usize)>,
+) -> Option<&'static str> {
   let li = langs::info(lang);
   let sg = parse(lang, text);
   let root = sg.root().get_ts_node();
-  let nodes = named_nodes_sorted(root.clone());
+  let mut nodes = named_nodes_sorted(root.clone());
+  if let Some((s, e)) = scope {
+    nodes.retain(|n| {
+      let (ns, ne) = (n.start_byte() as usize, n.end_byte() as usize);
+      ns >= s && ne <= e && !(ns == s && ne == e)
+    });
+  }
   if nodes.is_empty() {
     return None;
   }
@@ -539,7 +556,6 @@ fn apply_mut(lang: SupportLang, text: &mut String, m: &Mutn, opts: &SrcOpts) -> 
       let y = same[m.b.index(same.len())];
       let yt = tsutil::text(text, y).to_string();
       let r = x.start_byte() as usize..x.end_byte() as usize;
-      drop(sg_guard(&sg));
       text.replace_range(r, &yt);
       Some("mut_splice")
     }
@@ -744,7 +760,8 @@ fn apply_mut(lang: SupportLang, text: &mut String, m: &Mutn, opts: &SrcOpts) -> 
       if !opts.allow_errors || text.len() < 4 {
         return None;
       }
-      let mut s = m.a.index(text.len());
+      let (lo, hi) = scope.unwrap_or((0, text.len()));
+      let mut s = lo + m.a.index((hi - lo).max(1));
       while !text.is_char_boundary(s) {
         s -= 1;
       }
@@ -761,7 +778,8 @@ fn apply_mut(lang: SupportLang, text: &mut String, m: &Mutn, opts: &SrcOpts) -> 
         return None;
       }
       let toks = ["(", ")", "{", "}", ",", ";", "\"", " = ", "[", "]", " if ", "'"];
-      let mut s = m.a.index(text.len() + 1);
+      let (lo, hi) = scope.unwrap_or((0, text.len()));
+      let mut s = lo + m.a.index(hi - lo + 1);
       while !text.is_char_boundary(s) {
         s -= 1;
       }
@@ -771,8 +789,6 @@ fn apply_mut(lang: SupportLang, text: &mut String, m: &Mutn, opts: &SrcOpts) -> 
   }
 }
 
-#[inline]
-fn sg_guard<T>(_t: &T) {}
 
 pub fn build_source(corpus: &Corpus, ch: &SrcChoice, opts: &SrcOpts) -> Built {
   let mut labels = vec![];
